@@ -16,6 +16,7 @@ class WBMaster:
         self.log = []
         self.issue_cycle = None
         self.spurious = []          # ack/err seen while not requesting
+        self.wait_state_acks = 0    # look-ahead acknowledges of a bursting slave falling into a master wait state (ignored by masters)
         self.max_wait = max_wait
         self.hung = None
         self.waits = []
@@ -48,7 +49,14 @@ class WBMaster:
                 return None
         else:
             if v[b.ack] or v[b.err]:
-                self.spurious.append({"cycle": c, "ack": v[b.ack], "err": v[b.err]})
+                # Registered-feedback bursts (Wishbone B4 chapter 4): a slave that was told "another beat follows" (cti = incrementing)
+                # registers its next acknowledge before it can see that the master inserted a wait state (stb low, cyc held). Masters
+                # qualify ack with their own stb (B4 observation 3.55), so this is an observation, not an acknowledge of a cycle.
+                if (v[b.cyc] and not v[b.stb] and not v[b.err] and self.log and self.log[-1]["cti"] == CTI_INCR
+                        and self.log[-1]["done"] == c - 1):
+                    self.wait_state_acks += 1
+                else:
+                    self.spurious.append({"cycle": c, "ack": v[b.ack], "err": v[b.err]})
         # idle: next op?
         if self.idx >= len(self.ops):
             return {b.cyc: 0, b.stb: 0}
@@ -154,6 +162,8 @@ class WBProtocolMonitor:
         self.acks = 0
         self.cycles = 0
         self.req_cycles = 0
+        self.last_ack = None
+        self.lookahead_acks = 0
 
     def signals(self):
         b = self.bus
@@ -167,7 +177,11 @@ class WBProtocolMonitor:
         if stb and not cyc:
             self.viol.append({"cycle": c, "kind": "stb-without-cyc"})
         if (ack or err) and not (cyc and stb):
-            self.viol.append({"cycle": c, "kind": "ack-without-request"})
+            # look-ahead acknowledge of a registered-feedback burst falling into a master wait state: see WBMaster
+            if ack and not err and cyc and self.last_ack == (c - 1, CTI_INCR):
+                self.lookahead_acks += 1
+            else:
+                self.viol.append({"cycle": c, "kind": "ack-without-request"})
         if self.check_hold and self.prev is not None:
             if not (cyc and stb):
                 self.viol.append({"cycle": c, "kind": "request-withdrawn-before-ack", "was": self.prev})
@@ -177,6 +191,7 @@ class WBProtocolMonitor:
             self.req_cycles += 1
             if ack or err:
                 self.acks += 1
+                self.last_ack = (c, v[b.cti])
                 self.prev = None
             else:
                 self.prev = cur
